@@ -137,6 +137,7 @@ type VC struct {
 	sliceBack   map[string]*Loc // array-backed slices: arr term -> backing location
 	inl         *inlineFrame    // non-nil while the body of a contract-less callee is executed in place
 	inlDepth    int
+	atUsed      map[*AtCall]bool
 }
 
 type mapIter struct {
@@ -525,7 +526,12 @@ func (vc *VC) noteWrite(st *State, heap, key string) {
 		for _, k := range keys {
 			alts = append(alts, fmt.Sprintf("(= %s %s)", key, k))
 		}
-		alts = append(alts, fmt.Sprintf("(>= (base %s) %s)", key, lp.entryAlloc))
+		if !strings.HasPrefix(heap, "GH.") {
+			alts = append(alts, fmt.Sprintf("(>= (base %s) %s)", key, lp.entryAlloc))
+		}
+		if len(alts) == 0 {
+			alts = append(alts, "false")
+		}
 		goal := "(or " + strings.Join(alts, " ") + ")"
 		vc.oblige(fmt.Sprintf("loop%d.modifies", lp.ordinal), "", vc.reach[vc.curBlock], goal,
 			fmt.Sprintf("write to %s inside loop %d stays within the loop frame", heap, lp.ordinal))
@@ -923,6 +929,11 @@ func (vc *VC) run() (err error) {
 	order := vc.analyzeLoops()
 	vc.reach[fn.Blocks[0]] = "true"
 	vc.execBlocks(order, st)
+	for _, a := range vc.spec.AtCalls {
+		if !vc.atUsed[a] {
+			vc.fail("contract: 'at call %s[%d]' matches no call in the function (stale contract)", a.Callee, a.N)
+		}
+	}
 	return nil
 }
 
@@ -1081,7 +1092,10 @@ func (vc *VC) enterLoop(lp *loopInfo, b *ssa.BasicBlock, st *State, edges []inEd
 			}
 		}
 		var conj []string
-		conj = append(conj, fmt.Sprintf("(< (base r!f) %s)", lp.entryAlloc))
+		if !strings.HasPrefix(n, "GH.") {
+			// ghost arrays are not allocated: every key outside the frame keeps its value
+			conj = append(conj, fmt.Sprintf("(< (base r!f) %s)", lp.entryAlloc))
+		}
 		for _, k := range lp.frameKeys[n] {
 			conj = append(conj, fmt.Sprintf("(not (= r!f %s))", k))
 		}
